@@ -7,7 +7,8 @@
 (*   ps presentation access scope 0 Instance < 1 Topic < 2 Group; pc coherent, po ordered (0/1) *)
 (*   dl deadline period, lb latency budget, ll liveliness lease: duration classes *)
 (*        0 zero < 1 one nanosecond < 2 one second < 3 infinite              *)
-(*   ow ownership        0 Shared, 1 Exclusive(strength 1), 2 Exclusive(strength 2), 3 Exclusive(strength 0) *)
+(*   ow ownership        0 Shared, 1 Exclusive(strength 1), 2 Exclusive(strength 2), 3 Exclusive(strength 0), *)
+(*                       4 an ownership STRENGTH announced without an ownership kind: no kind is specified *)
 (*   lk liveliness kind  0 Automatic < 1 ManualByParticipant < 2 ManualByTopic *)
 (*   r  reliability      0 BestEffort < Reliable with max_blocking_time 1: 100 ms, 2: zero, 3: infinite *)
 (*                       (max_blocking_time is not part of the rule)          *)
@@ -32,7 +33,7 @@ Incompat(off, req) ==
           THEN {"Presentation"} ELSE {})
   \cup (IF Both(off.dl, req.dl) /\ off.dl > req.dl THEN {"Deadline"} ELSE {})
   \cup (IF Both(off.lb, req.lb) /\ off.lb > req.lb THEN {"LatencyBudget"} ELSE {})
-  \cup (IF Both(off.ow, req.ow) /\ OwKind(off.ow) # OwKind(req.ow) THEN {"Ownership"} ELSE {})
+  \cup (IF off.ow \in 0..3 /\ req.ow \in 0..3 /\ OwKind(off.ow) # OwKind(req.ow) THEN {"Ownership"} ELSE {})
   \cup (IF Both(off.lk, req.lk) /\ (off.lk < req.lk \/ off.ll > req.ll) THEN {"Liveliness"} ELSE {})
   \cup (IF Both(off.r, req.r) /\ RKind(off.r) < RKind(req.r) THEN {"Reliability"} ELSE {})
   \cup (IF Both(off.o, req.o) /\ off.o < req.o THEN {"DestinationOrder"} ELSE {})
@@ -59,7 +60,7 @@ Vals(p) == CASE p = "d" -> {[d |-> x] : x \in -1..3}
              [] p = "p" -> {[ps |-> -1, pc |-> 0, po |-> 0]} \cup {[ps |-> s, pc |-> c, po |-> o] : s \in 0..2, c \in 0..1, o \in 0..1}
              [] p = "dl" -> {[dl |-> x] : x \in Dur}
              [] p = "lb" -> {[lb |-> x] : x \in Dur}
-             [] p = "ow" -> {[ow |-> x] : x \in -1..3}
+             [] p = "ow" -> {[ow |-> x] : x \in -1..4}
              [] p = "l" -> {[lk |-> -1, ll |-> -1]} \cup {[lk |-> k, ll |-> x] : k \in 0..2, x \in 0..3}
              [] p = "r" -> {[r |-> x] : x \in -1..3}
              [] p = "o" -> {[o |-> x] : x \in -1..1}
